@@ -1723,9 +1723,11 @@ def _make_gin_wrapper(fn, fn_or_cls, name, selector, allowlist, denylist):
                 canonicalize(unbound_positional_args),
                 gin_bound_args=canonicalize(gin_bound_args),
                 caller_supplied_args=canonicalize(caller_supplied_args))
-      err_str += "\n  In call to configurable '{}' ({}){}"
+      # (Appended, not formatted into `err_str`: the names listed above are the
+      # caller's and may contain braces.)
       scope_info = " in scope '{}'".format(scope_str) if scope_str else ''
-      err_str = err_str.format(name, fn_or_cls, scope_info)
+      err_str += "\n  In call to configurable '{}' ({}){}".format(
+          name, fn_or_cls, scope_info)
       utils.augment_exception_message_and_reraise(e, err_str)
 
   return gin_wrapper
